@@ -9,8 +9,10 @@ from __future__ import annotations
 
 import ast
 import glob
+import multiprocessing
 import os
 import re
+import signal
 
 from vf import core
 
@@ -26,7 +28,10 @@ META = {
     "68-fragment keyword alphabet (bare and framed in a block / variable tag), every delete/duplicate/swap/replace "
     "mutation at distance <= d of the ~690 harvested test-suite templates, and 42 hostile identifiers "
     "(Python keywords, NFKC-colliding spellings, non-identifier \\w names, caller/varargs/kwargs, internal prefixes) in 27 "
-    "fixed, 41 one-name and 32 two-name (every ordered pair) signature / call / assignment shapes is loaded through Environment.from_string, Environment.parse and Environment.compile(raw=True) "
+    "fixed, 41 one-name and 32 two-name (every ordered pair) signature / call / assignment shapes, every unbounded lexer/parser "
+    "construct stretched to 8-40 repetitions (unterminated and terminated string literals with seven kinds of tail in twelve tag "
+    "positions, runs of each operator / bracket / name / digit / blank / delimiter, nestings up to 20 deep, long chains), and "
+    "every one of 84 expression positions filled with 13 nested filter/test expressions whose names occur once per template, is loaded through Environment.from_string, Environment.parse and Environment.compile(raw=True) "
     "+ Python compile() under nine configurations (default, ASP-style shared-prefix delimiters, ${ } variables, line "
     "statements + line comments, trim+lstrip, keep_trailing_newline, async, sandboxed, i18n+do+loopcontrols+debug).",
     "note": "Bounds: quick k=4 default / k=3 other configs, keyword alphabet <=2 (framed <=2), d<=1 on the 400 shortest seeds "
@@ -247,6 +252,37 @@ def _py_syntax_sig(e):
     return sig
 
 
+CPU_ALARM = 3.0        # seconds of CPU time per case (all three entry points together)
+HANGS_PER_SHARD = 3    # a shard stops enumerating after this many hangs ...
+HANGS_PER_RUN = 8      # ... and every shard stops once the run has seen this many
+HANGS = None           # multiprocessing.RawValue shared by the forked workers (set in run()); read without a lock
+HANGS_LOCK = None
+
+
+class StopShard(Exception):
+    """raised by Checker.check when the hang caps are reached"""
+
+
+def _on_cpu_alarm(signum, frame):
+    raise core.CaseTimeout()
+
+
+def guarded(fn):
+    """Shard wrapper: a shard that ran into the hang caps returns what it has."""
+    def shard(arg):
+        p = core.Part()
+        try:
+            fn(arg, p)
+        except StopShard:
+            p.count("shards_cut_short")
+        finally:
+            signal.setitimer(signal.ITIMER_VIRTUAL, 0)
+        return p
+    shard.__name__ = fn.__name__
+    shard.__qualname__ = fn.__qualname__
+    return shard
+
+
 class Checker:
     """Applies the totality oracle to one source under one configuration."""
 
@@ -262,6 +298,8 @@ class Checker:
         self.TAE = jinja2.TemplateAssertionError
         self.Template = jinja2.Template
         self.TemplateNode = jinja2.nodes.Template
+        self.hangs = 0
+        signal.signal(signal.SIGVTALRM, _on_cpu_alarm)
 
     def bad(self, sig, src, api, what):
         self.p.violation(sig, {
@@ -270,33 +308,33 @@ class Checker:
             "script": _script(self.ci, src, api),
         })
 
-    def check(self, src, full=True):
+    def check(self, src, full=True, seconds=CPU_ALARM):
         """Apply the oracle to one source.  full=False skips the third entry
         point when from_string already succeeded (it repeats the same parse,
         generate and compile() steps) or when Environment.parse already raised
         (compile(raw=True) starts with the very same parse)."""
         p = self.p
+        if self.hangs >= HANGS_PER_SHARD or (HANGS is not None and HANGS.value >= HANGS_PER_RUN):
+            raise StopShard()
         p.evals += 1
         try:
-            self._attempt(src, full, 5)
-        except core.CaseTimeout:
-            # a stalled machine must not be reported as a hang: a genuine hang is
-            # deterministic, so it has to time out again (with twice the allowance)
-            n = len(p.viol)
-            try:
-                self._attempt(src, full, 10)
-            except core.CaseTimeout as e:
-                del p.viol[n:]
-                self.bad(f"C01/hang/{_jinja_frame(e.__traceback__, True)}", src, self._api, "no result within 10 s (twice)")
-            else:
-                del p.viol[n:]  # already recorded by the first attempt
-                p.count("timeouts_not_reproduced")
+            self._attempt(src, full, seconds)
+        except core.CaseTimeout as e:
+            self.hangs += 1
+            if HANGS is not None:
+                with HANGS_LOCK:
+                    HANGS.value += 1
+            self.bad(f"C01/hang/{self.cfg}/{_jinja_frame(e.__traceback__, True)}", src, self._api,
+                     f"no result after {seconds} s of CPU time")
 
     def _attempt(self, src, full, seconds):
         env = make_env(self.ci)  # fresh environment per case
         nontrivial = None
         loaded = parse_failed = False
-        with core.alarm(seconds):
+        # per-case alarm on the worker's CPU time (ITIMER_VIRTUAL): a loop or a
+        # backtracking regex burns CPU, a stalled shared machine does not
+        signal.setitimer(signal.ITIMER_VIRTUAL, seconds)
+        try:
             for api in APIS:
                 self._api = api
                 try:
@@ -340,6 +378,8 @@ class Checker:
                 except Exception as e:  # noqa: BLE001
                     self.bad(f"C01/{type(e).__name__}/{_jinja_frame(e.__traceback__)}", src, api,
                              f"raised {type(e).__name__}: {str(e)[:200]}")
+        finally:
+            signal.setitimer(signal.ITIMER_VIRTUAL, 0)
         if nontrivial:
             self.p.sig(nontrivial)
 
@@ -348,12 +388,12 @@ class Checker:
 # (a) fragment strings
 
 
-def shard_strings(arg):
+@guarded
+def shard_strings(arg, p):
     """All fragment tuples over an alphabet that extend `prefix` up to length
     k (the prefix itself included); prefix None = all tuples shorter than
     plen (including the empty string).  `frame` wraps each joined string."""
     ci, which, k, prefix, plen, frame = arg
-    p = core.Part()
     A = alphabet(ci, which)
     tag = f"S{which}" + (f"/{frame}" if frame else "")
     chk = Checker(p, ci, tag)
@@ -376,17 +416,19 @@ def shard_strings(arg):
             for f in A:
                 rec(frags + (f,))
 
-    if prefix is None:
-        def short(frags):
-            run(frags)
-            if len(frags) < min(plen - 1, k):
-                for f in A:
-                    short(frags + (f,))
-        short(())
-    else:
-        rec(tuple(A[i] for i in prefix))
-    p.count("cases_strings_" + tag, p.evals)
-    return p
+    def short(frags):
+        run(frags)
+        if len(frags) < min(plen - 1, k):
+            for f in A:
+                short(frags + (f,))
+
+    try:
+        if prefix is None:
+            short(())
+        else:
+            rec(tuple(A[i] for i in prefix))
+    finally:
+        p.count("cases_strings_" + tag, p.evals)
 
 
 def string_shards(ci, which, k, frame=None):
@@ -467,36 +509,37 @@ def mutants1(toks, frags):
                 yield toks[:i] + [f] + toks[i + 1:]
 
 
-def shard_corpus(arg):
+@guarded
+def shard_corpus(arg, p):
     ci, seed_ids, d = arg
-    p = core.Part()
     chk = Checker(p, ci, f"M{d}")
     frags = [f for f in alphabet(ci, 2) if not f.isspace()]
-    for sid in seed_ids:
-        seed = CORPUS[sid]
-        toks = [translate_fragment(ci, t) for t in _seed_tok.findall(seed)]
-        seen = set()
-        level = [toks]
-        src0 = "".join(toks)
-        seen.add(src0)
-        chk.check(src0)
-        for dist in range(1, d + 1):
-            nxt = []
-            for base in level:
-                for m in mutants1(base, frags):
-                    s = "".join(m)
-                    if s in seen:
-                        continue
-                    seen.add(s)
-                    chk.check(s)
-                    if dist < d:
-                        nxt.append(m)
-            level = nxt
-        p.count("seeds_d%d" % d, 1)
-        if len(p.samples) < 1:
-            p.sample({"space": f"M{d}", "config": chk.cfg, "seed": seed, "distinct_mutants": len(seen)}, cap=1)
-    p.count("cases_mutants_d%d" % d, p.evals)
-    return p
+    try:
+        for sid in seed_ids:
+            seed = CORPUS[sid]
+            toks = [translate_fragment(ci, t) for t in _seed_tok.findall(seed)]
+            seen = set()
+            level = [toks]
+            src0 = "".join(toks)
+            seen.add(src0)
+            chk.check(src0)
+            for dist in range(1, d + 1):
+                nxt = []
+                for base in level:
+                    for m in mutants1(base, frags):
+                        s = "".join(m)
+                        if s in seen:
+                            continue
+                        seen.add(s)
+                        chk.check(s)
+                        if dist < d:
+                            nxt.append(m)
+                level = nxt
+            p.count("seeds_d%d" % d, 1)
+            if len(p.samples) < 1:
+                p.sample({"space": f"M{d}", "config": chk.cfg, "seed": seed, "distinct_mutants": len(seen)}, cap=1)
+    finally:
+        p.count("cases_mutants_d%d" % d, p.evals)
 
 
 # --------------------------------------------------------------------------
@@ -577,25 +620,194 @@ def all_shapes(full=2):
     return out
 
 
-def shard_shapes(arg):
+@guarded
+def shard_shapes(arg, p):
     ci, full, lo, hi = arg
-    p = core.Part()
     chk = Checker(p, ci, "D")
-    for kind, src in all_shapes(full)[lo:hi]:
-        s = translate_source(ci, src)
-        chk.check(s)
-        if len(p.samples) < 1 and kind == "shape2":
-            p.sample({"space": "D", "config": chk.cfg, "source": s}, cap=1)
-    p.count("cases_shapes", p.evals)
-    return p
+    try:
+        for kind, src in all_shapes(full)[lo:hi]:
+            s = translate_source(ci, src)
+            chk.check(s)
+            if len(p.samples) < 1 and kind == "shape2":
+                p.sample({"space": "D", "config": chk.cfg, "source": s}, cap=1)
+    finally:
+        p.count("cases_shapes", p.evals)
+
+
+# --------------------------------------------------------------------------
+# (e) long runs: the unbounded lexer/parser constructs, far beyond k fragments
+#
+# A string of <= 5 fragments never contains a 30-character literal, a run of
+# 40 parentheses or a 40-character name, so super-linear behaviour (a
+# backtracking regex, a quadratic rescan) cannot show in (a).  This family
+# holds every construct of unbounded length fixed and stretches it.
+
+LONG_N = (8, 16, 24, 32, 40)
+_TAILS = {
+    "mixed": "a b1.c(d)|e~f,g:h=i[j]k{l}m+n-o*p q2/r%s<t>u!v",
+    "word": "abcdefghijklmnopqrstuvwxyzabcdefghijklmnopqrstuvwxyz",
+    "blank": " " * 48,
+    "digits": "1234567890" * 5,
+    "delims": "{{ x }}{% y %}{# z #}{{ x }}{% y %}{# z #}{{ x }}",
+    "lines": "a\nb\n c\n\nd \ne\n" * 5,
+    "otherquote": "a@b@c d@e f@@g h@i@j k@l m@n@o p@q r@s@t u@v w@x",  # @ = the other quote character
+}
+_QUOTE_FRAMES = [
+    "{{ %s", "{{ %s }}", "{{ a ~ %s", "{{ f(%s) }}", "{{ {%s", "{% if %s %}x{% endif %}", "{% set a = %s", "{% include %s %}",
+    "{# c #}{{ %s", "{# c #}{% if %s", "x{{ a }}{%- set b = %s -%}", "{{ a }}\n{% if %s %}\n",
+]
+
+
+def long_cases(ci):
+    """(tag, source) pairs, delimiters still in default spelling."""
+    out = []
+    for n in LONG_N:
+        # unterminated / terminated string literals with a long tail
+        for q, oq in (("'", '"'), ('"', "'")):
+            for tname, tail in _TAILS.items():
+                body = tail.replace("@", oq)[:n]
+                for fi, frame in enumerate(_QUOTE_FRAMES):
+                    out.append((f"str-open/{tname}", frame.replace("%s", q + body)))
+                    if fi < 4:
+                        out.append((f"str-closed/{tname}", frame.replace("%s", q + body + q)))
+                        out.append((f"str-escaped/{tname}", frame.replace("%s", q + body[:n // 2] + "\\" + q + body[n // 2:])))
+            out.append(("str-escapes", "{{ " + q + "\\x" * n))
+            out.append(("str-escapes", "{{ " + q + "\\\\" * n + q + " }}"))
+            out.append(("str-escapes", "{{ " + q + ("\\" + q) * n))
+        # runs of one token / character
+        for frame in ("{{ %s", "{{ %s }}", "{% if %s %}x{% endif %}", "{{ a%s", "{{ a%s }}"):
+            for unit in ("(", "[", "{", ")", "-", "+", "~", "not ", "a.", ".a", "|a", "[0]", "()", "a,", " ", "\n", "1", "a",
+                         "_", "1_", "1.", ".", "*", "**", ":", "=", "==", "<", "!", "|", "is ", "if ", "'a'", "\\"):
+                out.append(("run/" + unit.strip(), frame.replace("%s", unit * n)))
+        # balanced nestings (20 deep at most: far from the recursion limit)
+        d = min(n, 20)
+        for o, c in (("(", ")"), ("[", "]"), ("{'a':", "}"), ("(a,", ")"), ("[a,", "]"), ("a(", ")"), ("a[", "]")):
+            out.append(("nest", "{{ " + o * d + "a" + c * d + " }}"))
+            out.append(("nest-open", "{{ " + o * d + "a" + c * (d - 1) + " }}"))
+            out.append(("nest-wrong", "{{ " + o * d + "a" + c * (d - 1) + "}" + " }}"))
+        out.append(("nest-if", "{% if a %}" * d + "x" + "{% endif %}" * d))
+        out.append(("nest-if-open", "{% if a %}" * d + "x" + "{% endif %}" * (d - 1)))
+        out.append(("nest-for", "{% for a in b %}" * d + "x" + "{% endfor %}" * d))
+        out.append(("nest-cond", "{{ " + "a if b else (" * d + "c" + ")" * d + " }}"))
+        out.append(("chain-filter", "{{ a" + "|f(b)" * n + " }}"))
+        out.append(("chain-elif", "{% if a %}" + "{% elif b %}" * n + "{% endif %}"))
+        out.append(("chain-cmp", "{{ a" + " < b" * n + " }}"))
+        out.append(("chain-concat", "{{ a" + " ~ 'b'" * n + " }}"))
+        # long runs outside tags and of tag openers / closers
+        for unit in ("{{", "{%", "{#", "}}", "%}", "#}", "{", "}", "%", "#", "-", "{{-", "-}}", "{%-", "{%+", "\n", " ", "{{ a }}",
+                     "{% raw %}", "{% endraw %}", "{# #}"):
+            # a run of n variable openers nests 2n-2 dict literals: keep the depth <= 40 (recursion limit is out of scope)
+            m = n // 2 + 1 if unit in ("{{", "{{-") else n
+            out.append(("data-run/" + unit.strip(), unit * m))
+            out.append(("data-run/" + unit.strip(), "x" + unit * m + "y"))
+        for o, body, c in (("{#", " c", "#}"), ("{% raw %}", " r{{", "{% endraw %}"), ("{{ a", " ", "}}"), ("{% if a", " ", "%}x{% endif %}"),
+                           ("{{ a", "\n", "}}"), ("{%- if a -%}", " \n", "{%- endif -%}")):
+            out.append(("long-body", o + body * n + c))
+            out.append(("long-body-open", o + body * n))
+    if CONFIGS[ci][0] == "line":
+        for n in LONG_N:
+            out.append(("line-stmt", "# if " + "a" * n + "\nx\n# endif"))
+            out.append(("line-stmt", "# if '" + "a b" * n))
+            out.append(("line-stmt", "#" * n + " if a"))
+            out.append(("line-stmt", "## " + "c " * n + "\n" + "# for a in b:" + " " * n + "\n# endfor"))
+    return out
+
+
+@guarded
+def shard_long(arg, p):
+    ci, part, nparts = arg
+    chk = Checker(p, ci, "L")
+    cases = long_cases(ci)
+    try:
+        for i in range(part, len(cases), nparts):
+            tag, src = cases[i]
+            chk.check(translate_source(ci, src), True, 2.0)
+        if cases:
+            p.sample({"space": "L", "config": chk.cfg, "kind": cases[part][0], "source": translate_source(ci, cases[part][1])}, cap=1)
+    finally:
+        p.count("cases_long_runs", p.evals)
+
+
+# --------------------------------------------------------------------------
+# (f) expression position x nested filter/test use
+#
+# Filters and tests get a per-function identifier (t_N) from a dependency
+# scan that has to reach every place an expression can sit.  Each case puts an
+# inner expression whose filter/test names occur nowhere else in the template
+# into one expression position.
+
+EXPR_POSITIONS = [
+    "{{ E }}", "{{ z|default(E) }}", "{{ z|default(default_value=E) }}", "{{ z|batch(2, E)|join(E2) }}",
+    "{{ z is eq(E) }}", "{{ z is ne(E) or z is gt(E2) }}", "{{ z is not le(E) }}",
+    "{{ fn(E) }}", "{{ fn(k=E) }}", "{{ fn(*E) }}", "{{ fn(**E) }}", "{{ fn(1, E, k=E2) }}", "{{ (E)(1) }}", "{{ (E).a }}",
+    "{{ (E)[0] }}", "{% if E %}x{% endif %}", "{% if z %}x{% elif E %}y{% endif %}", "{% if z %}x{% elif w %}y{% elif E %}v{% endif %}",
+    "{% for i in E %}{{ i }}{% endfor %}", "{% for i in z if E %}{{ i }}{% endfor %}",
+    "{% for i in z recursive %}{{ loop(E) }}{% endfor %}", "{% for i in z %}{{ E }}{% else %}{{ E2 }}{% endfor %}",
+    "{% set v = E %}", "{% set v, w = E, E2 %}", "{% set ns.a = E %}", "{% set v | default(E) %}x{% endset %}",
+    "{% set v %}{{ E }}{% endset %}", "{% filter default(E) %}x{% endfilter %}", "{% filter replace(E, E2) %}x{% endfilter %}",
+    "{% filter upper %}{{ E }}{% endfilter %}", "{% with w = E %}{{ w }}{% endwith %}", "{% with w = 1, v = E %}{{ E2 }}{% endwith %}",
+    "{% macro m(a=E) %}{{ a }}{% endmacro %}", "{% macro m(a, b=E) %}{{ E2 }}{% endmacro %}", "{% macro m() %}{{ E }}{% endmacro %}",
+    "{% call m(E) %}x{% endcall %}", "{% call m(k=E) %}x{% endcall %}", "{% call(a=E) m() %}x{% endcall %}",
+    "{% call m() %}{{ E }}{% endcall %}", "{% include E %}", "{% include [E, E2] ignore missing %}", "{% import E as m %}",
+    "{% from E import a %}", "{% extends E %}", "{{ z[E] }}", "{{ z[E:] }}", "{{ z[:E] }}", "{{ z[::E] }}", "{{ z[E:E2] }}",
+    "{{ {'k': E} }}", "{{ {E: 1} }}", "{{ [E] }}", "{{ (E, 1) }}", "{{ [1, E, E2] }}",
+    "{{ E if z else 0 }}", "{{ 1 if E else 0 }}", "{{ 1 if z else E }}", "{{ 1 if E }}",
+    "{{ E + 1 }}", "{{ 1 - E }}", "{{ not E }}", "{{ -E }}", "{{ z ~ E }}", "{{ z in E }}", "{{ E not in z }}", "{{ z < E }}",
+    "{{ z < E <= E2 }}", "{{ z and E }}", "{{ z or E }}", "{{ z ** E }}", "{{ z // E }}",
+    "{% block b %}{{ E }}{% endblock %}", "{% block b %}{{ E }}{% endblock %}{{ E2 }}",
+    "{% block b scoped %}{% for i in z %}{{ E }}{% endfor %}{% endblock %}",
+    "{% autoescape E %}x{% endautoescape %}", "{% autoescape true %}{{ E }}{% endautoescape %}",
+    "{% trans v=E %}{{ v }}{% endtrans %}", "{% trans count=E %}{{ count }}{% pluralize %}{{ count }}s{% endtrans %}",
+    "{% trans v=E, w=E2 %}{{ v }}{{ w }}{% endtrans %}", "{% do E %}", "{{ _(E) }}", "{% for i in z %}{% if E %}{% break %}{% endif %}{% endfor %}",
+    "{{ z|map('default', E)|list }}", "{{ z|selectattr('a', 'eq', E)|list }}",
+]
+# inner expressions; every filter / test name is used once per template (E2 uses a disjoint set)
+EXPR_INNER = [
+    ("x|length", "y|first"),
+    ("x is defined", "y is odd"),
+    ("x|first(y|upper)", "x|abs(y|string)"),
+    ("x is sameas(y|abs)", "x is divisibleby(y|length)"),
+    ("(x|string) is divisibleby(y is odd)", "(x|upper) is sameas(y is defined)"),
+    ("x|first(y is odd)", "x|abs(k=y is defined)"),
+    ("x is in(y|length)", "x is sameas(y|first(u|upper))"),
+    ("x|length(y|first(u|upper(v|abs)))", "x|string"),
+    ("x is divisibleby(y is sameas(u is odd))", "x is defined"),
+    ("x|nosuchfilter", "y|first"),
+    ("x is nosuchtest(y|length)", "y is odd"),
+    ("x|length is odd", "y|first is defined"),
+    ("x if y|length else u|first", "x if y is odd else u is defined"),
+]
+
+
+def expr_cases():
+    out = []
+    for pos in EXPR_POSITIONS:
+        for e1, e2 in EXPR_INNER:
+            out.append(pos.replace("E2", "\0").replace("E", e1).replace("\0", e2))
+    return out
+
+
+@guarded
+def shard_exprs(arg, p):
+    ci, part, nparts = arg
+    chk = Checker(p, ci, "G")
+    cases = expr_cases()
+    try:
+        for i in range(part, len(cases), nparts):
+            chk.check(translate_source(ci, cases[i]))
+        p.sample({"space": "G", "config": chk.cfg, "source": translate_source(ci, cases[part])}, cap=1)
+    finally:
+        p.count("cases_expr_positions", p.evals)
 
 
 # --------------------------------------------------------------------------
 
 
 def run(ctx: core.Ctx):
-    global CORPUS
+    global CORPUS, HANGS, HANGS_LOCK
     core.import_all_jinja()
+    HANGS = multiprocessing.get_context("fork").RawValue("i", 0)
+    HANGS_LOCK = multiprocessing.get_context("fork").Lock()
     CORPUS = harvest()
     if len(CORPUS) < 300:
         raise core.HarnessError(f"only {len(CORPUS)} template literals harvested from {core.REPO}/tests")
@@ -604,12 +816,16 @@ def run(ctx: core.Ctx):
                 "alphabet (bare, and framed as '{% .. %}' / '{{ .. }}'), under no-separator joining and under "
                 "space-between-adjacent-words joining; every distinct source at token-edit distance <= d (delete, "
                 "duplicate, swap adjacent, replace by any keyword-alphabet fragment) of each test-suite template; "
-                "every identifier (pair) in each signature/call shape; each under the listed configurations and "
+                "every identifier (pair) in each signature/call shape; every long-run case (construct x length x tag position); "
+                "every expression position x nested filter/test expression; each under the listed configurations and "
                 "through from_string, parse and compile(raw)+compile().  Non-trivial = the case loaded successfully "
                 "or failed with a message that is not one of the lexer's (i.e. it got past tokenisation); distinct = "
                 "distinct (outcome class, message with quoted names and numbers masked)")
     ctx.assumptions += [
         "a fresh Environment is built for every case; the lexer object is shared through jinja2's own lexer cache",
+        "hang = no result after 3 s (long-run family: 2 s) of the worker's CPU time (ITIMER_VIRTUAL), so a stalled shared machine is not "
+        "mistaken for a hang; a hang that consumes no CPU (blocking) would not be seen - loading a template from a string does no I/O",
+        "after 3 hangs in a shard or 8 in the run the remaining enumeration is abandoned and the run is reported as not exhaustive",
         "word fragments are joined both with no separator and with one blank between adjacent word-like fragments",
         "delimiter fragments of the alphabets, of the corpus tokens and of the shapes are translated to the configuration's delimiters; "
         "configurations with extra syntax get extra fragments (asp: < % > #; dollar: $; line: # ##; ext: do break continue debug trimmed notrimmed _)",
@@ -623,6 +839,14 @@ def run(ctx: core.Ctx):
     bounds = {"core_alphabet": len(SIGMA1), "keyword_alphabet": len(SIGMA2), "k_default": k_def, "k_other_configs": k_oth,
               "k_keyword_alphabet": k2, "configs": [c[0] for c in CONFIGS],
               "corpus_seeds": len(CORPUS)}
+    # (e) long runs and (f) expression positions first: they are small and a hang-type defect shows here at once
+    nparts = 4
+    ctx.pmap(shard_long, [(ci, part, nparts) for ci in range(len(CONFIGS)) for part in range(nparts)])
+    ctx.pmap(shard_exprs, [(ci, part, 2) for ci in range(len(CONFIGS)) for part in range(2)])
+    bounds["long_run_lengths"] = list(LONG_N)
+    bounds["long_run_cases_per_config"] = len(long_cases(0))
+    bounds["expr_position_cases_per_config"] = len(expr_cases())
+
     shards = []
     tuples = 0
     for ci in range(len(CONFIGS)):
@@ -669,6 +893,6 @@ def run(ctx: core.Ctx):
     ctx.pmap(shard_shapes, sshards)
     bounds["identifiers"] = len(IDS)
     ctx.cov["bounds"] = bounds
-    if ctx.counters.get("timeouts_not_reproduced"):
-        ctx.assumptions.append(f"{ctx.counters['timeouts_not_reproduced']} case(s) hit the 5 s alarm once and finished "
-                               "normally when repeated (machine stall); a hang is reported only when it repeats")
+    if ctx.counters.get("shards_cut_short"):
+        ctx.cap_hit(f"{ctx.counters['shards_cut_short']} shard(s) stopped enumerating after {HANGS_PER_SHARD} hangs in the shard "
+                    f"or {HANGS_PER_RUN} in the run ({HANGS.value} hangs reported)")
